@@ -333,3 +333,11 @@ def check(P, R, tier):
     R.assumptions = ["eventual delivery/commit (first sentence) is not decided", "SimpleSender is best effort: a single lost request is covered only by the retry arm (E3)",
                      "store semantics are C16's"]
     rules(P, R)
+    from ..common import fold
+    # "every transaction submitted to any honest node ends up in a batch": the batch maker keeps every transaction, seals on
+    # size or timer (also a batch of empty transactions), and every batch is stored and announced (C11.B1-B5)
+    fold(R, P, "c11", ("C11.B1", "C11.B2", "C11.B3", "C11.B4", "C11.B5"), "C13.E7", 50)
+    # "... and then resumes processing that block instead of stalling": the payload waiter and the synchronizers park on
+    # Store::notify_read, so every waiter registered for a key must be woken by the write of that key, whatever the order in
+    # which the write and the registration reach the store task (C16.T2/T3/T4)
+    fold(R, P, "c16", ("C16.T2", "C16.T3", "C16.T4"), "C13.E8", 30)
